@@ -300,14 +300,10 @@ func hostClass(p Prog) string {
 				wrapped = true
 			}
 		}
-		switch {
-		case !wrapped:
-			// F06 in its host form: an unwrapped value has no methods for the host-side check
+		if !wrapped {
+			// F06 in its host form: an unwrapped value has no methods for the host-side check.
+			// (A wrapped non-pointer value was re-read from its source variable up to ccca582: F05-19, fixed.)
 			return "host-assert-unwrapped"
-		case !ptr:
-			// F05-19: the wrapper is made over the source expression of the conversion: it shows the
-			// variable as it is at the assertion, not the copy the interface holds
-			return "host-assert-value-reevaluated"
 		}
 	}
 	return "in-domain"
